@@ -1131,7 +1131,7 @@ func compileStringLitEx(ctx *blockCtx, cb *gogen.CodeBuilder, lit *ast.BasicLit)
 			compileExpr(ctx, v, flags)
 			t := cb.Get(-1).Type
 			if t.Underlying() == types.Typ[types.String] {
-				if n != 1 && t != types.Typ[types.String] { // named string type: stringutil.Concat takes strings
+				if t != types.Typ[types.String] { // named string type: the literal is a string (and stringutil.Concat takes strings)
 					x := cb.InternalStack().Pop()
 					cb.Typ(types.Typ[types.String])
 					cb.InternalStack().Push(x)
